@@ -505,6 +505,58 @@ theorem product_no_outlive {σ : Nat → PQ.State} (hex : Exec psys σ) (p i : N
     · exact h
   exact ⟨ht, product_told_exits y.id hex hnet hsel hexit i ht⟩
 
+/-! ### the strong fairness assumption cannot be weakened -/
+
+/-- queue `q` has been told to stop, its goroutine is at the `select` with nothing queued, the queue
+    is still open, and some caller holds a handle to it -/
+def ToldIdle (s : PQ.State) (q : Nat) : Prop :=
+  told s q = true ∧ (s.x q).closed = false ∧ (s.x q).inflight = none ∧ (s.x q).queued = [] ∧
+  s.handles.contains q = true
+
+theorem step_eq_apply {s : PQ.State} {a : PQ.Act} (he : enabled s a = true) :
+    PQ.step s a = PQ.apply queueExit s a := by
+  unfold PQ.step stepWith; rw [if_pos he]
+
+/-- **why weak fairness of `close` is not enough** (the schedule behind the STRONG fairness assumption
+    of `told_closes`): from a `ToldIdle` state a caller can build, the `select` can prefer
+    `outgoingWork` (`take`), and while the message is in flight `close` is DISABLED; when the send
+    returns the state is `ToldIdle` again.  The round can be repeated for ever, so `close` is never
+    continuously enabled and a weakly fair scheduler never has to take it. -/
+theorem select_may_prefer_work_again {s : PQ.State} {q : Nat} (h : ToldIdle s q) (m : Nat) :
+    enabled s (.build q m) = true ∧
+    enabled (PQ.step s (.build q m)) (.take q) = true ∧
+    enabled (PQ.step (PQ.step s (.build q m)) (.take q)) (.close q) = false ∧
+    enabled (PQ.step (PQ.step s (.build q m)) (.take q)) (.finish q .failed []) = true ∧
+    ToldIdle (PQ.step (PQ.step (PQ.step s (.build q m)) (.take q)) (.finish q .failed [])) q := by
+  obtain ⟨ht, hc, hi, hq, hd⟩ := h
+  have he1 : enabled s (.build q m) = true := hd
+  have e1 : PQ.step s (.build q m) =
+      setX { s with handedLog := s.handedLog ++ [(q, m)] } q { s.x q with queued := [m] } := by
+    rw [step_eq_apply he1]; simp only [PQ.apply, hc, hq]; rfl
+  have x1 : (PQ.step s (.build q m)).x q = { s.x q with queued := [m] } := by rw [e1, setX_x_self]
+  have he2 : enabled (PQ.step s (.build q m)) (.take q) = true := by simp [enabled, x1, hc, hi]
+  have e2 : PQ.step (PQ.step s (.build q m)) (.take q) =
+      setX (PQ.step s (.build q m)) q { s.x q with queued := [], inflight := some (m, false) } := by
+    rw [step_eq_apply he2]; simp only [PQ.apply, x1]
+  have x2 : (PQ.step (PQ.step s (.build q m)) (.take q)).x q = { s.x q with queued := [], inflight := some (m, false) } := by
+    rw [e2, setX_x_self]
+  have he3 : enabled (PQ.step (PQ.step s (.build q m)) (.take q)) (.finish q .failed []) = true := by
+    simp [enabled, x2, finishOk]
+  have e3 : PQ.step (PQ.step (PQ.step s (.build q m)) (.take q)) (.finish q .failed []) =
+      setX (PQ.step (PQ.step s (.build q m)) (.take q)) q
+        { s.x q with queued := [], inflight := none, failed := (s.x q).failed ++ [m] } := by
+    rw [step_eq_apply he3]; simp only [PQ.apply, x2]; rfl
+  refine ⟨he1, he2, by simp [enabled, x2], he3, ?_⟩
+  refine ⟨told_mono _ _ q (told_mono _ _ q (told_mono _ _ q ht)), ?_, ?_, ?_, ?_⟩
+  · rw [e3, setX_x_self]; exact hc
+  · rw [e3, setX_x_self]
+  · rw [e3, setX_x_self]
+  · rw [e3, e2, e1]; exact hd
+
+/-- non-vacuity: after connect, hand-out, disconnect the queue is `ToldIdle` -/
+example : ToldIdle (PQ.run {} [.connected 0, .getProcess 0, .disconnected 0, .shutdownCall 0]) 0 := by
+  refine ⟨by decide, by decide, by decide, by decide, by decide⟩
+
 /-! ### non-vacuity of the liveness theorem -/
 
 /-- a complete life: queue 0 of peer 0 is handed out, gets a message, the peer disconnects, a caller
